@@ -5,7 +5,8 @@
    call) and Adv d; `mono` = the clock never goes backwards. *)
 From DV Require Import Base.Prelude Model.CacheM.
 From DV Require Import Proofs.CacheRing Proofs.CacheDict Proofs.CacheLru Proofs.CacheSpec
-  Proofs.CacheThm Proofs.CacheSimple Proofs.CacheBasic Proofs.CacheWalk Proofs.CacheConc Proofs.CacheOrder.
+  Proofs.CacheThm Proofs.CacheSimple Proofs.CacheBasic Proofs.CacheWalk Proofs.CacheConc Proofs.CacheOrder Proofs.CacheGuard.
+From DV Require Model.CacheSkel.
 
 (* ---- never stale: a lookup returns an answer only if its expiration is strictly later than the
    last clock reading of that lookup (any state, any clock) *)
@@ -193,6 +194,36 @@ Theorem body_between_invocation_and_response : forall s t0 ls cf pre t c r post,
     (forall x, In x p2 -> ~ call_event t x) /\ (forall x, In x p3 -> ~ call_event t x).
 Proof. exact (body_within_call lru_step). Qed.
 Print Assumptions body_between_invocation_and_response.
+
+(* ---- the critical-section premise, explicit.  `atomic c` = the method behind c is one
+   `with self.lock:` block; a method that is not runs unprotected (reads the object, writes back
+   later).  If every method is atomic, every execution of that larger LTS is one of the LTS above
+   and is linearizable.  The table `atomic` of dns/resolver.py is regenerated from the source on
+   every run together with guard_ok_* (all entries true) and linearizable_*_source (this theorem
+   instantiated with it): removing a lock breaks those obligations by name. *)
+Theorem linearizable_if_methods_atomic : forall (atomic : call -> bool),
+  (forall c, atomic c = true) ->
+  forall s t0 ls g,
+  gexec lru_step atomic (ginit s t0) ls g ->
+  exists ls' rs,
+    ls = map GL ls' /\
+    exec lru_step (init_conf s t0) ls' (fst g) /\
+    wrun lru_step (witness ls') (s, t0) = Ok (rs, (cf_obj (fst g), cf_now (fst g))) /\
+    forall t, thread_results t (witness_tid ls') rs = responses t ls' ++ pending (cf_ph (fst g) t).
+Proof. exact (guarded_linearizable lru_step). Qed.
+Print Assumptions linearizable_if_methods_atomic.
+
+(* and the premise is needed: with an unprotected put two threads lose an update, which no
+   sequential order of the two calls produces *)
+Theorem unprotected_put_is_not_linearizable :
+  exists g,
+    gexec cache_step put_unprotected (ginit cache0 0) lost_update_run g /\
+    dkeys (c_data (cf_obj (fst g))) = [2] /\
+    (forall its, its = [Call (Put 1 (mkAns 1 100)) []; Call (Put 2 (mkAns 2 100)) []] \/
+                 its = [Call (Put 2 (mkAns 2 100)) []; Call (Put 1 (mkAns 1 100)) []] ->
+       exists rs w, wrun cache_step its (cache0, 0) = Ok (rs, w) /\ length (c_data (fst w)) = 2%nat).
+Proof. exact unlocked_put_loses_update. Qed.
+Print Assumptions unprotected_put_is_not_linearizable.
 
 (* consequences for the LRUCache under concurrency: the bound holds in every reachable
    configuration, and no method body can raise *)
